@@ -32,6 +32,9 @@ Clause(e) ==
          ELSE IF Failed(e) THEN "index-rejected"
          ELSE IF ~TabEq(Tab(e.ins_after[1]), Set1(t, e.op.sels[1], e.op.cs, Tab(e.v))) THEN "set" ELSE "ok"
     [] e.a = "join" -> IF ~JoinValid(t, Tab(e.ins[2])) THEN "ok" ELSE IF Failed(e) THEN "join-failed" ELSE IF ~TabEq(Tab(e.out), Join(t, Tab(e.ins[2]))) THEN "join" ELSE "ok"
+    [] e.a = "badcat" ->        \* rows of different spaces must not be concatenated (one-axis tables, both with a real space)
+         LET u == Tab(e.ins[2]) IN
+         IF CatValid(t, u) \/ t.sp = <<>> \/ u.sp = <<>> \/ Failed(e) THEN "ok" ELSE "cat-accepted-different-spaces"
     [] e.a = "cat" -> IF ~CatValid(t, Tab(e.ins[2])) THEN "ok" ELSE IF Failed(e) THEN "cat-failed" ELSE IF ~TabEq(Tab(e.out), Cat(t, Tab(e.ins[2]))) THEN "cat" ELSE "ok"
     [] e.a = "repeat" -> IF Len(t.sh) # 1 THEN "ok" ELSE IF Failed(e) THEN "repeat-failed" ELSE IF ~TabEq(Tab(e.out), Repeat(t, e.n)) THEN "repeat" ELSE "ok"
     [] e.a = "unsq" -> IF Len(t.sh) # 1 THEN "ok" ELSE IF Failed(e) THEN "unsqueeze-failed" ELSE IF ~TabEq(Tab(e.out), Unsq(t, IF e.n = 0 THEN 0 ELSE 1)) THEN "unsqueeze" ELSE "ok"
